@@ -4,7 +4,7 @@
 # (3) the demonstration fails with it and passes without it (standard build line; special demos are run by hand).
 # Writes <seed>/confirm.log and prints a summary.  The scratch worktree is removed afterwards.
 id=$1; shift
-S=/tmp/seed/$id/out; W=/tmp/confirm/$id
+S=${SEEDROOT:-/tmp/seed}/$id/out; W=/tmp/confirm/$id
 [ -f $S/patch.diff ] || { echo "no patch"; exit 2; }
 rm -rf $W; git -C /repo worktree prune; git -C /repo worktree add -q $W HEAD || exit 2
 trap 'git -C /repo worktree remove --force $W 2>/dev/null' EXIT
